@@ -239,7 +239,10 @@ func RuleDIncludePath(c *core.Ctx) {
 					continue
 				}
 				if callee.Name() == "Dir" && callee.Pkg != nil && (callee.Pkg.Pkg.Path() == "path" || callee.Pkg.Pkg.Path() == "path/filepath") {
-					if originSet(p, cl.Call.Args[0], 0)[fileParam] {
+					// the argument must be the file parameter itself (through captured
+					// variables and single-assignment cells), not an element of some
+					// container the parameter was put into
+					if _, root := containerRoot(cl.Call.Args[0]); root == ssa.Value(fileParam) {
 						dirOK = true
 					}
 				}
